@@ -262,7 +262,7 @@ impl Session {
             let code = compiler.compile_ast(&ast)?;
             vm.run(code)
         }));
-        alloc::set_mode(alloc::PLAIN);
+        alloc::reset_mode();
         sim::marker("LINE-");
         CTX.with(|c| {
             let mut ctx = c.borrow_mut();
@@ -626,8 +626,17 @@ pub fn run_session(spec: &SessionSpec, verbose: bool) -> SessionResult {
     let quarantine_before = shadow::QUARANTINE.load(std::sync::atomic::Ordering::Relaxed);
     if spec.recycle {
         shadow::QUARANTINE.store(false, std::sync::atomic::Ordering::Relaxed);
+        // addresses are recycled by the simulator's own last-in-first-out rule for the whole session
+        // (lines, what the caller releases in between, the final drop), so that a replay re-uses the
+        // same addresses in the same order
+        alloc::flush_cache();
+        alloc::set_ambient(alloc::RECYCLE);
     }
     let r = run_session_inner(spec, verbose);
+    if spec.recycle {
+        alloc::set_ambient(alloc::PLAIN);
+        alloc::flush_cache();
+    }
     shadow::QUARANTINE.store(quarantine_before, std::sync::atomic::Ordering::Relaxed);
     r
 }
@@ -690,7 +699,7 @@ fn run_session_inner(spec: &SessionSpec, verbose: bool) -> SessionResult {
         let crash_here = matches!(spec.crash, Some((l, _)) if l == li);
         let mut plan = Plan::plain();
         plan.budget = 4 * m.steps + 1000;
-        plan.alloc_mode = spec.alloc_mode;
+        plan.alloc_mode = if spec.recycle { alloc::RECYCLE } else { spec.alloc_mode };
         plan.track_survivors = true;
         if spec.collect_every_step {
             plan.collect = CollectPlan::Every;
@@ -1908,7 +1917,7 @@ fn random_session(rng: &mut Rng) -> SessionSpec {
     // optionally one injected failure in an injectable line (position chosen now, step chosen by the caller)
     let caller_releases = rng.chance(2, 3);
     let recycle = caller_releases && rng.chance(1, 3);
-    let alloc_mode = if recycle { alloc::PLAIN } else { alloc_mode };
+    let alloc_mode = if recycle { alloc::RECYCLE } else { alloc_mode };
     SessionSpec {
         lines,
         crash: None,
@@ -2152,11 +2161,32 @@ fn directed(i: usize) -> Option<SessionSpec> {
             lines.push(line("read", vec![st("basis;", false)], Fail::None, true, true));
             Some(mk(lines))
         }
+        13 => {
+            // the value of a line shares structure with a value handed out earlier: an array that the
+            // caller already owns gets a fresh element inside a function that also drops the last
+            // variable referring to it, and is the function's (and the line's) value
+            let mut lines = Vec::new();
+            lines.push(line("decl-arr", vec![st("stel g = [0, \"x\"];", true)], Fail::None, false, true));
+            lines.push(line("read", vec![st("g;", false)], Fail::None, true, true));
+            lines.push(line(
+                "return-handed-out-array",
+                vec![st("functie f() { stel t = g; g = 0; t[0] = 1.5 + 1.0; t };", true), st("f();", false)],
+                Fail::None,
+                true,
+                false,
+            ));
+            lines.push(line("func-call-value", vec![st("functie h() { [2.5] };", true), st("h();", false)], Fail::None, true, true));
+            lines.push(line("decl-arr", vec![st("stel k = [string(4)];", true)], Fail::None, false, true));
+            lines.push(line("read", vec![st("k;", false)], Fail::None, true, true));
+            lines.push(line("return-handed-out-array", vec![st("k[0] = string(6);", true), st("[k, k = 0];", false)], Fail::None, true, false));
+            lines.push(line("read", vec![st("g;", false)], Fail::None, true, true));
+            Some(mk(lines))
+        }
         _ => None,
     }
 }
 
-pub const DIRECTED: u64 = 13;
+pub const DIRECTED: u64 = 14;
 
 /// a short random session (Miri adjunct)
 pub fn small_session(seed: u64, i: u64) -> SessionSpec {
